@@ -464,6 +464,8 @@ func (s *verifC31State) step(line string) (res string) {
 			return fmt.Sprintf("close %d %s w=%s %s", ce.Code, verifC31Hex([]byte(ce.Text)), w, s.cc())
 		case rerr != nil && strings.Contains(rerr.Error(), "bad close code"):
 			return fmt.Sprintf("protoErr bad w=%s %s", w, s.cc())
+		case rerr != nil && strings.Contains(rerr.Error(), "invalid close payload length"):
+			return fmt.Sprintf("protoErr len w=%s %s", w, s.cc())
 		case rerr != nil && strings.Contains(rerr.Error(), "invalid utf8 payload in close frame"):
 			return fmt.Sprintf("protoErr utf8 w=%s %s", w, s.cc())
 		case rerr == nil:
